@@ -26,7 +26,7 @@ type c11conn struct {
 }
 
 var c11resumeAns = []string{"resumed-same", "resumed-other", "failed", "failed-known-condition", "failed-no-condition", "unexpected", "close"}
-var c11enableAns = []string{"enabled-resume-true", "enabled-resume-false", "failed", "unexpected", "close"}
+var c11enableAns = []string{"enabled-resume-true", "enabled-resume-false", "failed", "unexpected", "close", "enabled-resume-true-no-id", "enabled-resume-true-empty-id"}
 
 func c11queue(cl *Client) string {
 	if cl.Session == nil || cl.Session.SMState.UnAckQueue == nil {
